@@ -12,8 +12,19 @@ from checks import wirelib
 from checks.brokerlib import parse_out
 
 
+def declared_length(b):
+    """the remaining length a byte string announces (the model would build a zero-padded body of that size)"""
+    n, mult = 0, 1
+    for x in b[1:5]:
+        n += (x & 127) * mult
+        mult *= 128
+        if x < 128:
+            return n
+    return 0
+
+
 def main(tier=None):
-    c = Check("C18", ["Wasp.Properties.Facts.Wiring", "Wasp.Properties.C18", "Wasp.Properties.Facts.C18", "Wasp.Properties.C18E2E"], tier)
+    c = Check("C18", ["Wasp.Properties.Facts.Wiring", "Wasp.Properties.C18", "Wasp.Properties.Facts.C18", "Wasp.Properties.C18E2E", "Wasp.Properties.WireRoundTrip"], tier)
     c.build()
     rng = c.rng
     samples = []
@@ -79,6 +90,28 @@ def main(tier=None):
     ops.append("bye")
     c.run_suite(Suite("hostile-streams-with-witness", "broker", ops, mon, {"cases": cases, "nontrivial": cases}, resets=("reset",), retry_args=["200"]), timeout=3000)
     samples.append({"suite": "hostile-streams-with-witness", "ops": [o[:100] for o in ops[4:12]]})
+    # the decoder model against the real decoder, byte string by byte string (each followed by end of input)
+    dec_ops = []
+    for name, b in wirelib.valid_packets(rng) + wirelib.special_packets():
+        if len(b) > 600:
+            continue
+        dec_ops.append(f"dec {b.hex() or '-'}")
+        for label, mb in wirelib.mutations(rng, name, b):
+            if len(mb) < 4000 and declared_length(mb) < 100000:
+                dec_ops.append(f"dec {mb.hex() or '-'}")
+    for _ in range(2000 if c.tier == "quick" else 60000):
+        n = rng.choice([1, 2, 3, 5, 8, 13, 30])
+        first = rng.choice([0x10, 0x30, 0x32, 0x34, 0x40, 0x50, 0x62, 0x70, 0x82, 0xa2, 0xc0, 0xe0, rng.randrange(256)])
+        body = bytes(rng.choice([0, 0, 1, 2, 4, rng.randrange(256)]) for _ in range(n))
+        dec_ops.append("dec " + (bytes([first, rng.choice([len(body), len(body), rng.randrange(0, 20)])]) + body).hex())
+    kinds = {}
+
+    def dec_mon(ops_, impl):
+        for r in impl:
+            kinds[r.split(" ", 1)[0]] = kinds.get(r.split(" ", 1)[0], 0) + 1
+        return []
+    c.run_suite(Suite("decoder-correspondence", "wire", dec_ops, dec_mon, {"cases": len(dec_ops), "nontrivial": len(dec_ops), "outcomes": kinds}, resets=("dec",)))
+    samples.append({"suite": "decoder-correspondence", "ops": dec_ops[:6]})
     from checks import brokerlib
     scs = brokerlib.corpus(c.rng, ["ids-return-after-recipient-vanished", "setup-workers-survive-panics", "split-length-field-among-many"])
     scs += [brokerlib.gen_abandoned_exchanges(c.rng) for _ in range(3 if c.tier == "quick" else 40)]
